@@ -152,7 +152,31 @@ def t_slow(mpath, n=1):
 TARGETS = {'linger': t_linger, 'slowfin': t_slowfin, 'unreb2': t_unreb2, 'badret': t_badret, 'slow': t_slow, 'ret': t_ret, 'exc': t_exc, 'bexc': t_bexc, 'unreb': t_unreb, 'big': t_big}
 
 
-def p_item(mpath, k, bump=0):
+class SlowArg:
+    """an argument whose rebuild in the child runs Python code for a while (several line events)"""
+    def __init__(self, v=3):
+        self.v = v
+
+    def __setstate__(self, st):
+        x = 0
+        for i in range(3):
+            x += i
+        self.__dict__.update(st)
+
+
+def t_sleep(mpath, n=1):
+    import time
+    mark(mpath, 'start')
+    t0 = time.time()
+    while time.time() - t0 < 30:        # interruptible Python code
+        time.sleep(0.01)
+    return ('own', 0)
+
+
+TARGETS['sleep'] = t_sleep
+
+
+def p_item(mpath, k, bump=0, arg=None):
     """persistent target: result for item k is ('own', k + bump); only item 1 is enqueued with a bump"""
     mark(mpath, 'item %d start' % k)
     y = k + bump
@@ -160,7 +184,7 @@ def p_item(mpath, k, bump=0):
     return ('own', y)
 
 
-def p_item_raise3(mpath, k, bump=0):
+def p_item_raise3(mpath, k, bump=0, arg=None):
     mark(mpath, 'item %d start' % k)
     if k == 3:
         raise ValueError('own', k)
